@@ -82,6 +82,7 @@ pub fn run_case(case: &Case) -> Run {
     sbj: vec![],
     conn: vec![],
     tok_ops: Arc::new(()),
+    slot1: None,
   }));
   let w_out = w.clone();
   let counts: Arc<Mutex<Vec<Option<Vec<i64>>>>> = Arc::new(Mutex::new(vec![None; case.stims.len()]));
@@ -138,6 +139,9 @@ pub fn run_case(case: &Case) -> Run {
             let u = st.a;
             let slot: Arc<Mutex<Option<Subscription<'static>>>> = Default::default();
             slots.push(slot.clone());
+            if u == 1 {
+              w.lock().unwrap().slot1 = Some(slot.clone());
+            }
             let sb = subscribe_sink(&root, u, &w, if u == 1 { case2.cfg.react.clone() } else { React::default() }, slot.clone(), if u == 1 { Some(tok.clone()) } else { None });
             *slot.lock().unwrap() = Some(sb.clone());
             handles.push(sb);
